@@ -255,7 +255,8 @@ def valid_files(rng, n):
             moov_extra = [isogen.meta([isogen.ilst([isogen.ilst_item(isogen.YEAR, 21, b"\x00\x00\x07\xd8")])], fullbox=True)]
         elif i % 5 == 4:
             trs[0]["trak_extra"] = [isogen.meta([isogen.Box("xml ", [isogen.Raw(b"<t/>")])], fullbox=True, handler="mdta")]
-        r, tracks, nodes = isogen.build_movie(trs, layout, udta=udta, extra_top=extra, moov_extra=moov_extra)
+        lead = [isogen.Box("jP  ", [isogen.Raw(b"\r\n\x87\n")])] if i % 7 == 5 else [isogen.Box("free", [isogen.Raw(b"\0" * 20)])] if i % 7 == 2 else []
+        r, tracks, nodes = isogen.build_movie(trs, layout, udta=udta, extra_top=extra, moov_extra=moov_extra, lead=lead)
         out.append(("gen%d" % i, r, tracks))
     return out
 
